@@ -166,3 +166,29 @@ def straight_after(g, bid, label):
         if len(nx) == 1:
             start.append(nx[0][0])
     return out
+
+
+def contained(facts, cfg, f, node, memo=None, depth=0):
+    """Is an exception raised at `node` in f caught by a non-rethrowing catch-all before it leaves the analysed backend code?
+    True when node lies in such a try block in f, or when *every* analysed call site of f is itself contained.
+    Returns (bool, chain) — chain names the uncontained call chain when False."""
+    if memo is None:
+        memo = {}
+    for t in try_stack(f, node):
+        if has_catch_all(t):
+            return True, []
+    key = id(f)
+    if key in memo:
+        return memo[key]
+    memo[key] = (True, [])  # cycle guard
+    callers = facts.callsites(cfg).get(id(f), [])
+    if not callers or depth > 12:
+        memo[key] = (False, [f.short])
+        return memo[key]
+    for (g, site) in callers:
+        ok, chain = contained(facts, cfg, g, site, memo, depth + 1)
+        if not ok:
+            memo[key] = (False, chain + [f.short])
+            return memo[key]
+    memo[key] = (True, [])
+    return memo[key]
